@@ -1517,7 +1517,7 @@ def run_probe(p):
 
 
 def check_unknown(ctx):
-    probes = unknown_probes() + near_miss_probes(ctx.seed)
+    probes = unknown_probes()      # (the structured near-miss probes run inside the worker pool: kind "nearmiss")
     for p in probes:
         ctx.count(f"probe/{p['mode']}/{p['catalogue']}")
         ctx.case(("probe", p["mode"], p["catalogue"], p["system"], p["name"], tuple(p["ids"]) if p["ids"] else None, p["form"]), nontrivial=True)
@@ -1881,6 +1881,11 @@ def _forms_of(kind, flag=True):
 def run_task(t):
     """t = (kind, system, name, ids, flag) -> list of (kind, system, name, ids, flag, fails)"""
     kind, system, name, ids, flag = t
+    if kind == "nearmiss":      # flag = (catalogue, family); result = [(dispatcher label, None | what it returned)]
+        try:
+            return [(kind, system, name, ids, flag, [(lab, run_probe({"thunk": th, "form": lab})) for lab, th in dispatchers(flag[0], name, system)])]
+        except Exception as e:  # noqa
+            return [(kind, system, name, ids, flag, [("harness-crash", f"{type(e).__name__}: {e}")])]
     try:
         if kind == "state":
             return [(kind, system, name, ids, flag, check_state(system, name))]
@@ -1941,6 +1946,18 @@ def run_tasks(tasks, chunk, tasks2=(), chunk2=1):
 
 def _register(ctx, results):
     for kind, system, name, ids, flag, fails in results:
+        if kind == "nearmiss":
+            cat, fam = flag
+            for lab, got in fails:
+                ctx.count(f"probe/near-miss-{fam}/{cat}")
+                ctx.case(("probe", f"near-miss-{fam}", cat, system, name, None, lab), nontrivial=True)
+                ctx.n_near = getattr(ctx, "n_near", 0) + 1
+                if got is not None:
+                    ctx.violate(f"C17/{cat}/near-miss-{fam}/accepted",
+                                f"{lab} with name {name!r} (system {system}, ids None) {got} instead of raising",
+                                {"kind": "probe", "mode": f"near-miss-{fam}", "catalogue": cat, "name": name, "system": system,
+                                 "ids": None, "form": lab})
+            continue
         ctx.count(f"{kind}/{system}")
         for form in _forms_of(kind, flag):
             ctx.case((kind, system, name, tuple(ids) if ids else None, form), nontrivial=(name != "identity"),
@@ -1998,13 +2015,23 @@ TRANSLATED = {
                         "get_povm_names_1qutrit", "get_povm_names_2qutrit", "get_povm_names", "get_povm_names_rank1",
                         "get_povm_names_not_rank1", "get_povm_object_names"],
     "gate_typical.py": ["get_gate_names_1qubit", "get_gate_names_2qubit", "get_gate_names_2qubit_asymmetric", "get_gate_names_3qubit",
-                        "get_gate_names_1qutrit_single_gellmann", "get_gate_names_1qutrit"],
+                        "get_gate_names_3qubit_asymmetric", "get_gate_names_1qutrit_single_gellmann", "get_gate_names_1qutrit",
+                        "get_base_matrix_names_1qutrit", "get_base_matrix_names_2qutrit", "get_angles_2qutrit",
+                        "get_gate_names_2qutrit_single_base_matrix", "get_gate_names_2qutrit_two_base_matrices",
+                        "get_gate_names_2qutrit_base_matrices", "get_gate_names_2qutrit", "get_gate_names"],
     "mprocess_typical.py": ["get_mprocess_names_type1_set_pure_state_vectors", "get_mprocess_names_type1_set_kraus_matrices",
                             "get_mprocess_names_type1", "get_mprocess_names_type2", "get_mprocess_object_names"],
+    "state_ensemble_typical.py": ["get_state_ensemble_names"],
+    "qoperation_typical.py": ["get_gate_object_names", "get_effective_lindbladian_object_names"],
 }
 _LEAN_PRELUDE = '''/-! GENERATED by harness/c17.py:translate from quara/objects/*_typical.py (Python `ast`) on every run — do not edit.
 Name tables of the catalogues and the state-name validator, as the source defines them. -/
 namespace QGen.C17
+
+/-- `list(itertools.product(*ls))` (first factor slowest), tuples as lists -/
+def prodTuples : List (List String) → List (List String)
+  | [] => [[]]
+  | l :: ls => l.flatMap fun a => (prodTuples ls).map fun t => a :: t
 
 /-- `[sep.join(t) for t in itertools.product(*ls)]` (first factor slowest) -/
 def prodJoin (sep : String) : List (List String) → List String
@@ -2081,29 +2108,130 @@ class _Tr:
             self.fail(e, "comprehension element")
         self.fail(e, "expression")
 
+    def product_call(self, it, env):
+        """`product(A, B, ...)` / `product(A, repeat=k)` -> (lean list of factors, arity)"""
+        import ast
+        rep_ = 1
+        for kw in it.keywords:
+            if kw.arg == "repeat" and isinstance(kw.value, ast.Constant) and isinstance(kw.value.value, int):
+                rep_ = kw.value.value
+            else:
+                self.fail(it, "product keyword")
+        args = [self.iterable(a, env) for a in it.args]
+        if rep_ == 1:
+            return "[" + ", ".join(args) + "]", len(args)
+        if len(args) != 1:
+            self.fail(it, "product(A, B, repeat=k)")
+        return f"(List.replicate {rep_} ({args[0]}))", rep_
+
+    def concat(self, e, sym):
+        """a `+`-concatenation of loop-local names / tuple components / string literals -> list of atoms"""
+        import ast
+        if isinstance(e, ast.BinOp) and isinstance(e.op, ast.Add):
+            return self.concat(e.left, sym) + self.concat(e.right, sym)
+        if isinstance(e, ast.Constant) and isinstance(e.value, str):
+            return [("lit", e.value)]
+        if isinstance(e, ast.Name) and e.id in sym:
+            return list(sym[e.id])
+        if isinstance(e, ast.Subscript) and isinstance(e.value, ast.Name) and ("tuple", e.value.id) in sym \
+                and isinstance(e.slice, ast.Constant) and isinstance(e.slice.value, int):
+            return [("comp", e.slice.value)]
+        self.fail(e, "concatenation operand")
+
+    def loop(self, st, env, kinds, arity):
+        """`for t in <product var>: ...; out.append(<concat of all components in order>)`  or
+        `for a in A: for b in B: if a != b: out.append(a + "lit" + b)`  ->  (target variable, lean expression to append)"""
+        import ast
+        if not (isinstance(st.target, ast.Name) and isinstance(st.iter, ast.Name) and st.iter.id in env and not st.orelse):
+            self.fail(st, "for loop header")
+        tv, src = st.target.id, st.iter.id
+        if kinds[src] == "tuples":
+            sym = {("tuple", tv): True}
+            out = None
+            for b in st.body:
+                if isinstance(b, ast.Assign) and len(b.targets) == 1 and isinstance(b.targets[0], ast.Name):
+                    sym[b.targets[0].id] = self.concat(b.value, sym)
+                elif isinstance(b, ast.Expr) and isinstance(b.value, ast.Call) and isinstance(b.value.func, ast.Attribute) \
+                        and b.value.func.attr == "append" and isinstance(b.value.func.value, ast.Name) and len(b.value.args) == 1 and out is None:
+                    out = (b.value.func.value.id, self.concat(b.value.args[0], sym))
+                else:
+                    self.fail(b, "loop body statement")
+            if out is None or out[1] != [("comp", i) for i in range(arity[src])] or out[0] not in env or kinds[out[0]] != "list":
+                self.fail(st, "loop does not append the concatenation of all tuple components in order")
+            return out[0], f"({src}.map String.join)"
+        # two nested loops over lists with an inequality filter
+        if not (len(st.body) == 1 and isinstance(st.body[0], ast.For)):
+            self.fail(st, "loop over a list")
+        inner = st.body[0]
+        if not (isinstance(inner.target, ast.Name) and isinstance(inner.iter, ast.Name) and inner.iter.id in env
+                and kinds[inner.iter.id] == "list" and len(inner.body) == 1 and isinstance(inner.body[0], ast.If) and not inner.orelse):
+            self.fail(inner, "inner loop")
+        a, b2, cond = tv, inner.target.id, inner.body[0]
+        if not (isinstance(cond.test, ast.Compare) and isinstance(cond.test.ops[0], ast.NotEq) and len(cond.test.ops) == 1
+                and isinstance(cond.test.left, ast.Name) and cond.test.left.id == a
+                and isinstance(cond.test.comparators[0], ast.Name) and cond.test.comparators[0].id == b2 and not cond.orelse):
+            self.fail(cond, "filter is not `a != b`")
+        sym = {a: [("var", a)], b2: [("var", b2)]}
+        out = None
+        for b in cond.body:
+            if isinstance(b, ast.Assign) and len(b.targets) == 1 and isinstance(b.targets[0], ast.Name):
+                sym[b.targets[0].id] = self.concat(b.value, sym)
+            elif isinstance(b, ast.Expr) and isinstance(b.value, ast.Call) and isinstance(b.value.func, ast.Attribute) \
+                    and b.value.func.attr == "append" and isinstance(b.value.func.value, ast.Name) and len(b.value.args) == 1 and out is None:
+                out = (b.value.func.value.id, self.concat(b.value.args[0], sym))
+            else:
+                self.fail(b, "loop body statement")
+        if out is None or out[0] not in env:
+            self.fail(st, "nested loop appends nothing")
+        term = " ++ ".join(x[1] if x[0] == "var" else _lean_str(x[1]) for x in out[1])
+        return out[0], f"({src}.flatMap fun {a} => (({inner.iter.id}.filter fun {b2} => {a} != {b2}).map fun {b2} => {term}))"
+
     def function(self, fn):
         import ast
         if fn.args.args or fn.args.kwonlyargs or fn.args.vararg:
             self.fail(fn, "name-table function with parameters")
-        env, lines = set(), []
+        env, lines, kinds, arity = set(), [], {}, {}
         body = list(fn.body)
         if body and isinstance(body[0], ast.Expr) and isinstance(body[0].value, ast.Constant):
             body = body[1:]
         for st in body:
             if isinstance(st, ast.Assign) and len(st.targets) == 1 and isinstance(st.targets[0], ast.Name):
-                lines.append(f"  let {st.targets[0].id} : List String := {self.expr(st.value, env)}")
-                env.add(st.targets[0].id)
-            elif isinstance(st, ast.AugAssign) and isinstance(st.op, ast.Add) and isinstance(st.target, ast.Name) and st.target.id in env:
+                v = st.targets[0].id
+                if isinstance(st.value, ast.Call) and isinstance(st.value.func, ast.Name) and st.value.func.id == "product":
+                    fac, ar = self.product_call(st.value, env)
+                    lines.append(f"  let {v} : List (List String) := prodTuples {fac}")
+                    kinds[v], arity[v] = "tuples", ar
+                elif isinstance(st.value, ast.ListComp) and len(st.value.generators) == 1 and isinstance(st.value.generators[0].iter, ast.Name) \
+                        and kinds.get(st.value.generators[0].iter.id) == "tuples" and not st.value.generators[0].ifs \
+                        and isinstance(st.value.generators[0].target, ast.Name):
+                    src = st.value.generators[0].iter.id
+                    atoms = self.concat(st.value.elt, {("tuple", st.value.generators[0].target.id): True})
+                    if atoms != [("comp", i) for i in range(arity[src])]:
+                        self.fail(st, "comprehension does not concatenate all tuple components in order")
+                    lines.append(f"  let {v} : List String := ({src}.map String.join)")
+                    kinds[v] = "list"
+                else:
+                    lines.append(f"  let {v} : List String := {self.expr(st.value, env)}")
+                    kinds[v] = "list"
+                env.add(v)
+            elif isinstance(st, ast.AugAssign) and isinstance(st.op, ast.Add) and isinstance(st.target, ast.Name) and st.target.id in env \
+                    and kinds[st.target.id] == "list":
                 lines.append(f"  let {st.target.id} : List String := {st.target.id} ++ {self.expr(st.value, env)}")
             elif isinstance(st, ast.Expr) and isinstance(st.value, ast.Call) and isinstance(st.value.func, ast.Attribute) \
-                    and isinstance(st.value.func.value, ast.Name) and st.value.func.value.id in env and len(st.value.args) == 1:
+                    and isinstance(st.value.func.value, ast.Name) and st.value.func.value.id in env and len(st.value.args) == 1 \
+                    and kinds[st.value.func.value.id] == "list":
                 v, a = st.value.func.value.id, st.value.args[0]
                 if st.value.func.attr == "append" and isinstance(a, ast.Constant) and isinstance(a.value, str):
                     lines.append(f"  let {v} : List String := {v} ++ [{_lean_str(a.value)}]")
                 elif st.value.func.attr == "extend":
                     lines.append(f"  let {v} : List String := {v} ++ {self.expr(a, env)}")
+                elif st.value.func.attr == "remove" and isinstance(a, ast.Constant) and isinstance(a.value, str):
+                    lines.append(f"  let {v} : List String := {v}.erase {_lean_str(a.value)}")
                 else:
                     self.fail(st, "method call")
+            elif isinstance(st, ast.For):
+                v, app = self.loop(st, env, kinds, arity)
+                lines.append(f"  let {v} : List String := {v} ++ {app}")
             elif isinstance(st, ast.Return):
                 lines.append(f"  {self.expr(st.value, env)}")
                 return f"def {fn.name} : List String :=\n" + "\n".join(lines) + "\n"
@@ -2212,6 +2340,7 @@ def oracle(ctx, volume=1):
     catalogue_consistency(ctx)
     # --- all small catalogues, completely
     tasks = small_tasks()
+    tasks += [("nearmiss", sysl, nm, None, (cat, fam)) for cat, fam, nm, sysl in near_miss_names(ctx.seed)]
     # --- 2-qutrit gate / Lindbladian names
     single = sorted(GT.get_gate_names_2qutrit_single_base_matrix())
     double = sorted(GT.get_gate_names_2qutrit_two_base_matrices())
@@ -2258,7 +2387,7 @@ def oracle(ctx, volume=1):
     for f in check_parametric_channels(ctx.npgen(17)):
         ctx.violate(f"C17/legacy/gate/{f['check']}", f"[{f['form']}]: {f['msg']}", {"kind": "channels", "form": f["form"], "check": f["check"]})
     ctx.case(("channels",))
-    n_probe = check_unknown(ctx)
+    n_probe = check_unknown(ctx) + getattr(ctx, "n_near", 0)
     t3 = time.time()
     ctx.notes.append(
         f"C17 oracle: {len(tasks)} small-catalogue entries (all names x all forms x all id permutations), "
@@ -2418,7 +2547,8 @@ def correspondence(ctx):
                              drv.ask("hsunitary", d, bs, _pc(gd["u"]), _pr(gd["hs"].T + 1e-6 * np.eye(d * d)[::-1]), eps)))
     # generated name tables (QGen/C17.lean, translated from the source on this run) against the real functions
     tabs = []
-    mods = {"state_typical.py": ST, "povm_typical.py": PT, "gate_typical.py": GT, "mprocess_typical.py": MT}
+    mods = {"state_typical.py": ST, "povm_typical.py": PT, "gate_typical.py": GT, "mprocess_typical.py": MT,
+            "state_ensemble_typical.py": ET, "qoperation_typical.py": QT}
     for fname, fns in TRANSLATED.items():
         for f in fns:
             tabs.append((f, list(getattr(mods[fname], f)()), drv.ask("names", f)))
